@@ -181,7 +181,7 @@ CHECKS = {
                 'setter; the node order handed to the positional [I|N] block construction has the boundary vertices first whatever their ids (recognised '
                 'idioms: stable sort keyed by vertex_type != B, or a first segment filtered on vertex_type == B) and that order is the one used for the adjacency matrix; '
                 'the column offset pw() recomputes from g.inputs()/g.outputs() is the width of the identity block (same vector, unmodified, inputs emptied, nothing changes them before pw runs) and pw looks nodes up as index_map[col - n_outs] over all columns; '
-                'the matrix whose null space is taken has the block structure [[I_outs;0 | N],[I_2outs | 0]] with every vstack/hstack dimension-consistent (symbolic shapes); pw\'s colour and Pauli tables; every basis vector becomes one returned web.',
+                'the matrix whose null space is taken has the block structure [[I_outs;0 | N],[I_2outs | 0]] with every vstack/hstack dimension-consistent (symbolic shapes); pw\'s colour and Pauli tables; every basis vector becomes one returned web; make_bipartite re-routes every edge it removes through one fresh phase-free spider of the opposite colour on every path (never deletes an edge) and runs first; boundaries not attached to a spider (bare wires) are ignored.',
         'note': TB + 'D2 is a necessary condition of numbering independence only. Not decided: validity, independence, completeness of the webs.',
         'technique': 'save/clobber/restore pairing with provenance on all paths; must-fact rule at the point where the node order is built; data-flow agreement of a positional offset between two functions; symbolic block-matrix shape evaluation; table extraction',
     },
